@@ -14,6 +14,7 @@ package alephium
 // uev = bh;tx;idx;conv as converted by the real code
 
 import (
+	"bytes"
 	"context"
 	"encoding/hex"
 	"encoding/json"
@@ -359,6 +360,230 @@ func (g *fgen) genMeta(rounds int) {
 		for shape := 0; shape < 28; shape++ {
 			for v := 0; v < 3; v++ {
 				g.metaCase(shape, v+3*g.r.Intn(4))
+			}
+		}
+	}
+}
+
+// ---------------------------------------------------------------------------------------------
+// metadata-change histories: "... hands a message to the signing pipeline only if, at that moment, ... - for token attestations -
+// the attested metadata equals what the token contract itself reports" (C08) and "every well-formed message ... is eventually handed
+// to the signing pipeline" (C09), when what the token contract reports CHANGES during the life of one Watcher / Client (a contract
+// that is migrated or upgraded, a token that simply answers differently later, a contract that is destroyed).
+//
+//  1. token X answers healthily (symbol / name / decimals v1); the token bridge's attestation of X with v1 is validated and
+//     forwarded - by the polling path, by a re-observation request, or by both (now and then a foreign sender's faithful
+//     attestation-shaped event naming X is validated first; now and then the watcher is restarted afterwards);
+//  2. X's contract answers differently from now on (`wti`): another symbol, another name, other decimals, all three, or its calls
+//     fail in one of the ways the harness knows;
+//  3. attestations of X carrying the EARLIER values (a new event with the very same payload bytes or a re-encoding of them, the
+//     first event itself when only re-observation has seen it, and the first transaction re-observed) must be dropped on both paths
+//     (attest-mismatch-admitted, reobs-attest-mismatch); attestations carrying what X reports NOW must be delivered, forwarded and
+//     re-observed (wellformed-event-dropped, final-message-not-forwarded, reobs-wellformed-event-dropped); a transfer rides along;
+//  4. now and then X changes a second time - to something else again, or back to v1 (then the first transaction is owed again).
+//
+// Every change is made while no attestation of X is pending, so "at that moment" is never in doubt. Lives without the fetch loop hand
+// their pages to the watcher's own handleUnconfirmedEvents (`wbatch`).
+
+// differentWord: a metadata string that differs from w after NUL trimming - a near neighbour (one letter more / changed) or a new word.
+func (g *fgen) differentWord(w []byte) []byte {
+	for {
+		c := g.word()
+		if g.chance(40) {
+			c = otherWord(w)
+		}
+		if len(c) <= 32 && !bytes.Equal(bytes.Trim(c, "\x00"), bytes.Trim(w, "\x00")) {
+			return c
+		}
+	}
+}
+
+// healthyShape: the three getters answer t's values (the symbol now and then NUL padded, as newToken does).
+func (g *fgen) healthyShape(t *tokenTruth) string {
+	sym := hex.EncodeToString(t.symbol)
+	if g.chance(30) && len(t.symbol) > 0 {
+		sym = hex.EncodeToString(pad32(t.symbol, g.chance(50)))
+	}
+	return fmt.Sprintf("SB%s|SB%s|SU%d", sym, hex.EncodeToString(t.name), t.decimals)
+}
+
+// changeToken: t's contract reports something else from now on. kind symbol / name / decimals / all: new healthy answers;
+// gone: the calls fail (t keeps its last values: nothing attests them truthfully any more).
+func (r *watchRun) changeToken(t *tokenTruth, kind string) {
+	g := r.g
+	if kind == "gone" {
+		fails := append(degradedShapes(hex.EncodeToString(t.symbol), hex.EncodeToString(t.name), t.decimals, t.shape), "e400", "e404")
+		r.setShape(t, fails[g.r.Intn(len(fails))])
+		return
+	}
+	if kind == "symbol" || kind == "all" {
+		t.symbol = g.differentWord(t.symbol)
+	}
+	if kind == "name" || kind == "all" {
+		t.name = g.differentWord(t.name)
+	}
+	if kind == "decimals" || kind == "all" {
+		d := t.decimals
+		for d == t.decimals {
+			d = uint8(g.pick(0, 6, 8, 9, 18, int(t.decimals)+1, int(t.decimals)+255, g.r.Intn(256)))
+		}
+		t.decimals = d
+	}
+	r.setShape(t, g.healthyShape(t))
+}
+
+func (g *fgen) mchgCase(kind string, first string, fetch bool) {
+	r := g.newWatchRun("mchg", fetch, false)
+	r.reobs = true
+	n := g.node
+	x := g.newToken(false)
+	r.c.tokens[0] = x
+	n.mu.Lock()
+	n.ti = map[string]tiAnswer{}
+	n.mu.Unlock()
+	r.c.installTokens(n)
+	r.start("")
+	h := int32(1000)
+	n.mu.Lock()
+	n.height = h
+	n.mu.Unlock()
+	page := func(evs []*evSpec) {
+		if r.exited || len(evs) == 0 {
+			return
+		}
+		if fetch {
+			r.fetchTickEvs(tickScript{newVisible: len(evs), pageSize: g.pick(1, 2, 100), pageErr: -1}, evs)
+		} else {
+			r.batch(evs)
+		}
+	}
+	height := func(drain bool) {
+		if !r.exited {
+			h++
+			r.heightTick(h, drain)
+		}
+	}
+	reobs := func(tx string) {
+		if !r.exited {
+			r.reobserve(tx)
+		}
+	}
+	seq := uint64(g.r.Intn(1000))
+	mk := func(b *fblock, sender []byte, tc uint16, payload []byte) *evSpec {
+		seq += 1 + uint64(g.r.Intn(5))
+		e := r.mkEvent(b, msgSpec{sender: sender, tc: tc, seq: seq, nonce: g.r.Uint32(), cl: uint8(g.r.Intn(3)), payload: payload})
+		r.registerTx(e, r.c.gov)
+		return e
+	}
+	// 1. the first validation of X
+	var head []*evSpec
+	if g.chance(30) { // anyone can publish on the governance contract: a faithful attestation-shaped event of a foreign sender comes first
+		head = append(head, mk(r.oldBlock(), g.bytesN(32), 0, g.attestFor(x, "ok")))
+	}
+	e1 := mk(r.oldBlock(), r.c.bridge, 0, g.attestFor(x, "ok"))
+	var carry []*evSpec // on the log's next positions, not yet served to the polling path
+	switch first {
+	case "poll":
+		page(append(head, e1))
+		height(false)
+	case "reobs":
+		if len(head) > 0 {
+			reobs(head[0].tx)
+		}
+		reobs(e1.tx)
+		carry = append(head, e1)
+	default:
+		if g.chance(50) {
+			reobs(e1.tx)
+		}
+		page(append(head, e1))
+		height(false)
+		reobs(e1.tx)
+	}
+	if fetch && g.chance(25) && !r.exited { // Run is started again on the same Watcher value: same client
+		r.restart("cancel", "", nil)
+	}
+	// after a change: attestations of the values X reported before (prev), of what it reports now, a transfer; both paths
+	after := func(prev *tokenTruth, prevPayload []byte, hasNow bool, oldTxs []string) {
+		evs := carry
+		carry = nil
+		b := r.oldBlock()
+		oldP := g.attestFor(prev, "ok")
+		if prevPayload != nil && g.chance(50) { // the very bytes that were validated before
+			oldP = prevPayload
+		}
+		txs := append([]string{}, oldTxs...)
+		add := func(e *evSpec) {
+			evs = append(evs, e)
+			txs = append(txs, e.tx)
+		}
+		if hasNow && g.chance(50) {
+			add(mk(b, r.c.bridge, 0, g.attestFor(x, "ok")))
+			add(mk(b, r.c.bridge, 0, oldP))
+		} else {
+			add(mk(b, r.c.bridge, 0, oldP))
+			if hasNow {
+				add(mk(r.oldBlock(), r.c.bridge, 0, g.attestFor(x, "ok")))
+			}
+		}
+		add(mk(b, r.c.bridge, 2, append([]byte{1}, g.bytesN(132)...)))
+		g.r.Shuffle(len(txs), func(i, j int) { txs[i], txs[j] = txs[j], txs[i] })
+		reobsFirst := g.chance(40)
+		if reobsFirst {
+			for _, tx := range txs {
+				reobs(tx)
+			}
+		}
+		if g.chance(50) {
+			page(evs)
+		} else {
+			for i := range evs {
+				page(evs[i : i+1])
+			}
+		}
+		height(false)
+		if !reobsFirst || g.chance(30) {
+			for _, tx := range txs {
+				reobs(tx)
+			}
+		}
+	}
+	// 2. X answers differently; 3. earlier and current values on both paths
+	v1 := *x
+	r.changeToken(x, kind)
+	after(&v1, e1.m.payload, kind != "gone", []string{e1.tx})
+	// 4. a second change: something else again, or back to what X reported first
+	if g.chance(35) && !r.exited {
+		v2, now2 := *x, kind != "gone"
+		if g.chance(50) {
+			x.symbol, x.name, x.decimals = v1.symbol, v1.name, v1.decimals
+			r.setShape(x, g.healthyShape(x))
+		} else {
+			r.changeToken(x, []string{"symbol", "name", "decimals", "all"}[g.r.Intn(4)])
+		}
+		var prevPayload []byte
+		if !now2 { // X's calls failed meanwhile: v2 holds the values of v1, nothing was validated against them since
+			prevPayload = e1.m.payload
+		}
+		after(&v2, prevPayload, true, []string{e1.tx})
+	}
+	if fetch && !r.exited {
+		r.fetchTickEvs(tickScript{pageSize: 100, pageErr: -1}, nil)
+	}
+	for s := 0; s < 2 && !r.exited; s++ {
+		r.settle()
+		height(true)
+	}
+	r.stop()
+}
+
+// genMetaChange: every kind of change, every way of meeting the first validation, with and without the fetch loop.
+func (g *fgen) genMetaChange(rounds int) {
+	for i := 0; i < rounds; i++ {
+		for _, kind := range []string{"symbol", "name", "decimals", "all", "gone"} {
+			for _, first := range []string{"poll", "reobs", "both"} {
+				g.mchgCase(kind, first, true)
+				g.mchgCase(kind, first, false)
 			}
 		}
 	}
@@ -741,4 +966,5 @@ func (g *fgen) genC09() {
 	g.genPaths(nMeta)
 	g.genPageFail(nMeta)
 	g.genDips(nMeta)
+	g.genMetaChange(nMeta)
 }
